@@ -134,13 +134,11 @@ def relabel(t, a, b):
 para_guarded_cache = {}
 def para_guarded(wraprun):
     """Does the (single) success path of the wrap pass `para == 1`?"""
+    P = ("BE", 32, ("sl", ("in", "params"), (12, 0), (16, 0)))
     for r in wraprun.ok_paths:
         for g in r.path.guards:
-            c = wraprun.norm.n(g["cond"])
-            if c == ("binop", "Ne", ("BE", 32, ("sl", ("in", "params"), (12, 0), (16, 0))), ("int", 1)) and g["value"] == 0:
-                para_guarded_cache["v4-sodium"] = True
-                return True
-            if c == ("binop", "Eq", ("BE", 32, ("sl", ("in", "params"), (12, 0), (16, 0))), ("int", 1)) and g["value"] == 1:
+            pin = pin_of(wraprun.norm.n(g["cond"]), g["value"], g.get("arms"))
+            if pin and pin[0] == P and pin[1] == 1 and pin[2]:
                 para_guarded_cache["v4-sodium"] = True
                 return True
     para_guarded_cache["v4-sodium"] = False
@@ -298,6 +296,14 @@ def unwrap_param_rejections(be):
         f = lambda x: x.replace("$params[0..8]", "$key_data[16..24]").replace("$params[8..12]", "$key_data[24..28]").replace("$params[12..16]", "$key_data[28..32]")
     return paramcanon.rename(c05.PARAM_REJECTIONS.get(be, ()), f)
 
+def _pure_length_test(c):
+    """c compares the length of the input blob with an integer constant and mentions nothing else."""
+    L = ("len", ("in", "key_data"))
+    if isinstance(c, tuple) and len(c) == 4 and c[0] == "binop" and c[1] in ("Eq", "Ne", "Lt", "Le", "Gt", "Ge"):
+        a, b = c[2], c[3]
+        return (a == L and isinstance(b, tuple) and b[0] == "int") or (b == L and isinstance(a, tuple) and a[0] == "int")
+    return c == L          # `match key_data.len() { N => .., _ => Err }`
+
 def classify_unwrap_exit(run, r, be, op):
     import c05
     cause = r.path.err_cause
@@ -307,9 +313,11 @@ def classify_unwrap_exit(run, r, be, op):
         s = fmt_n(c) if c is not None else "?"
         if "VERIFY" in repr(c):
             return ("verification", "")
+        if _pure_length_test(c):
+            return ("length", "")          # an explicit comparison of the blob's length with a constant
         if op == "pbkw" and g is not None:
             import paramcanon
-            atoms = paramcanon.canon(c, g["value"])
+            atoms = paramcanon.canon(c, g["value"], g.get("arms"))
             if atoms and atoms <= unwrap_param_rejections(be):
                 return ("param-validation", s)
         return ("unstated", "Err exit under condition " + s[:200])
